@@ -429,6 +429,7 @@ func init() {
 	reg("sort.SliceStable", sortSliceWith(true))
 
 	registerNumberStubs(reg)
+	registerReflectStubs(reg)
 	registerSyncStubs(reg)
 	registerConcIntrinsics(reg)
 }
